@@ -569,6 +569,14 @@ def gen_layout(seed, tier, focus):
             sh, srv = ch.pick(F, ("mtarget", j), placement)
             kind = ch.pick(F, ("mkind", j), MUT_KINDS)
             muts.append([srv, sh, kind, ch.randrange(F, ("mp1", j), 1 << 30), ch.randrange(F, ("mp2", j), 1 << 30)])
+        if ch.chance(F, "coordinated", 0.3):
+            # coordinated substitution: most or all copies replaced in the same way, so that the replaced shares are
+            # consistent with one another (complete share set of another file / another encoding, the same forged UEB
+            # field or hash-tree node everywhere); a few copies may stay genuine
+            kind = ch.pick(F, "co-kind", ["swap_file", "swap_file", "swap_enc", "ueb_field", "cthash", "field", "swap_shnum"])
+            p1, p2 = ch.randrange(F, "co-p1", 1 << 30), ch.randrange(F, "co-p2", 1 << 30)
+            keep = set(ch.sample(F, "co-keep", range(len(placement)), ch.randint(F, "co-nkeep", 0, max(0, len(placement) - k))))
+            muts = muts[:ch.randint(F, "co-others", 0, 2)] + [[srv, sh, kind, p1, p2] for i, (sh, srv) in enumerate(placement) if i not in keep]
         if ch.chance(F, "tamper", 0.35):
             for j in range(ch.randint(F, "ntamper", 1, 3)):
                 faults.append(["tamper_read", ch.randrange(F, ("tsrv", j), nservers), ch.randint(F, ("tnth", j), 1, 12), ch.randrange(F, ("tp", j), 1 << 30)])
